@@ -153,6 +153,16 @@ class Folder:
             return ("tuple", [self.fold(x) for x in e["elems"]])
         if k == "array":
             return ("array", [self.fold(x) for x in e["elems"]])
+        if k == "match":
+            # a constant table spelled as a `match` on a constant (e.g. a helper `const fn` taking `self`)
+            v = self.fold(e["scrut"])
+            for arm in e["arms"]:
+                if arm.get("guard") is not None:
+                    raise Unfoldable("guarded arm in a constant match", sp)
+                m = self.pat_matches(arm["pat"], v, sp)
+                if m:
+                    return self.fold(arm["body"])
+            raise Unfoldable("no arm of a constant match applies", sp)
         if k == "const":
             p = e.get("resolved") or e["path"]
             return self.fold_const(p, sp)
@@ -198,6 +208,38 @@ class Folder:
                         self.env = saved
             raise Unfoldable("call to " + p, sp)
         raise Unfoldable("expression kind " + k, sp)
+
+    def pat_matches(self, p, v, sp=None):
+        k = p["k"]
+        if k == "deref":
+            return self.pat_matches(p["sub"], v, sp)
+        if k == "wild":
+            return True
+        if k == "bind":
+            if p.get("sub") is not None:
+                raise Unfoldable("binding with sub-pattern in a constant match", sp)
+            return True   # (the binding itself is not made available: a body using it stays unfoldable)
+        if k == "or":
+            return any(self.pat_matches(q, v, sp) for q in p["pats"])
+        if k == "variant":
+            if p["subs"]:
+                raise Unfoldable("variant pattern with fields", sp)
+            if v[0] != "variant":
+                raise Unfoldable("variant pattern on a non-variant constant", sp)
+            return v[1] == p["path"] and v[2] == p["variant"]
+        if k == "const":
+            if "str" in p and v[0] == "str":
+                return v[1] == p["str"]
+            if "bits" in p and v[0] == "num" and p["ty"]["s"] in INT_RANGES:
+                bits = int(p["bits"])
+                lo, _hi = INT_RANGES[p["ty"]["s"]]
+                if lo < 0 and bits >= 1 << (8 * p["size"] - 1):
+                    bits -= 1 << (8 * p["size"])
+                return v[1] == bits
+            if "bits" in p and v[0] == "bool":
+                return v[1] == bool(int(p["bits"]))
+            raise Unfoldable("constant pattern of type " + p["ty"]["s"], sp)
+        raise Unfoldable("pattern kind " + str(p.get("kind") or k), sp)
 
     def fold_const(self, path, sp=None):
         if path in KNOWN_EXTERN_CONSTS:
